@@ -930,7 +930,9 @@ func (sc *Script) Render(logic string, extraAxioms []*Term, wantModel bool) stri
 		}
 		for _, o := range sc.Observe {
 			if seen[o] {
-				vals = append(vals, o.inline(names))
+				if termSize(o, 60) < 60 {
+					vals = append(vals, o.inline(map[*Term]string{}))
+				}
 			}
 		}
 		if len(vals) > 0 {
@@ -954,4 +956,16 @@ func heapReadRoot(t *Term) (heapConstInfo, bool) {
 		return hc, true
 	}
 	return heapConstInfo{}, false
+}
+
+// termSize counts the nodes of t as a tree, giving up at limit.
+func termSize(t *Term, limit int) int {
+	n := 1
+	for _, a := range t.Args {
+		if n >= limit {
+			return n
+		}
+		n += termSize(a, limit-n)
+	}
+	return n
 }
